@@ -38,6 +38,9 @@ def items(tier, seed):
             out.append({"k": "unit", "u": u, "order": order, "all_cats": tier != "quick" or order == 1})
     for c in db.IterCategories():
         out.append({"k": "cat", "c": c})
+        out.append({"k": "cat_redefined", "c": c})
+    for cap_kind in ("unknown", "known_unit", "derived"):
+        out.append({"k": "captioned", "q": cap_kind})
     out[0]["canary"] = True
     random.Random(seed).shuffle(out)
     return out
@@ -68,6 +71,30 @@ def run(cfg, V):
             except Exception as e:  # noqa
                 return {"nocat_exc": type(e).__name__}
             return {"nocat_exc": None}
+        if cfg["k"] == "captioned":
+            from collections import OrderedDict
+            from barril.units import GetUnknownQuantity, Quantity
+
+            q = {"unknown": lambda: GetUnknownQuantity("Feet"), "known_unit": lambda: ObtainQuantity("m", "length", "as measured"),
+                 "derived": lambda: Quantity.CreateDerived(OrderedDict([("length", ["m", 1]), ("time", ["s", -1])]), unknown_unit_caption="flow-ish")}[cfg["q"]]()
+            forms = {"scalar": [Scalar(q, v), Scalar.CreateWithQuantity(q, v), Scalar(q, w).CreateCopy(value=v)],
+                     "array": [Array(q, [v, w]), Array.CreateWithQuantity(q, [v, w])],
+                     "fixed": [FixedArray(2, q, [v, w]), FixedArray.CreateWithQuantity(q, [v, w])],
+                     "fraction": [FractionScalar(q, v), FractionScalar.CreateWithQuantity(q, v)]}
+            return {"bad": {n: _all_equal(f) for n, f in forms.items()}, "captions": [o.GetQuantity().GetUnknownCaption() for f in forms.values() for o in f],
+                    "want_caption": q.GetUnknownCaption()}
+        if cfg["k"] == "cat_redefined":
+            # history: objects of the category exist, then the category is redefined (same quantity type) with another default unit and value
+            c = cfg["c"]
+            info = db.GetCategoryInfo(c)
+            units = db.GetUnits(info.quantity_type)
+            du2 = [u for u in units if u != info.default_unit][:1] or [info.default_unit]
+            Scalar(c), Array(c), FixedArray(2, c), FractionScalar(c), ObtainQuantity(None, c)
+            db.AddCategory(c, info.quantity_type, override=True, default_unit=du2[0], default_value=v)
+            return {"scalar": _all_equal([Scalar(c), Scalar(v, du2[0], c), Scalar(c, v, du2[0]), Scalar(ObtainQuantity(du2[0], c), v)]),
+                    "fraction": _all_equal([FractionScalar(c), FractionScalar(v, du2[0], c)]),
+                    "array": _all_equal([Array(c), Array([], du2[0], c)]), "fixed": _all_equal([FixedArray(2, c), FixedArray(2, c, [0.0, 0.0], du2[0])]),
+                    "unit": (Scalar(c).GetUnit(), du2[0])}
         if cfg["k"] == "cat":
             c = cfg["c"]
             info = db.GetCategoryInfo(c)
@@ -156,6 +183,11 @@ def props(cfg, T, obs):
         return [("every documented construction form is accepted", False)]
     if cfg["k"] == "nocat":
         return [("a unit without any default category is rejected with UnitsError, not built inconsistently", obs["nocat_exc"] in ("UnitsError", "InvalidUnitError", "InvalidQuantityTypeError"))]
+    if cfg["k"] == "captioned":
+        return [("forms taking a captioned quantity build equal objects that keep the caption", all(b == [] for b in obs["bad"].values()) and all(c == obs["want_caption"] for c in obs["captions"]))]
+    if cfg["k"] == "cat_redefined":
+        return [("after a category is redefined, objects built from the category alone follow the NEW default unit and value",
+                 obs["scalar"] == [] and obs["fraction"] == [] and obs["array"] == [] and obs["fixed"] == [] and obs["unit"][0] == obs["unit"][1])]
     if cfg["k"] == "cat":
         return [("Scalar(category) == Scalar(default value, default unit, category) in every form", obs["scalar"] == []),
                 ("Array(category) forms equal", obs["array"] == []), ("default containers are not shared between objects", bool(obs["array_fresh"]) and bool(obs["fixed_fresh"])), ("FixedArray(n, category) forms equal", obs["fixed"] == []),
